@@ -15,7 +15,8 @@ class Loop:
         self.a = a
         self.nxt = nxt
         self.pipe = pipe
-        self.payload = nxt.ret[1]
+        # the yielded item: the modelled payload of a std pipeline, or the Some-field of an opaque Option returned by a crate-local next()
+        self.payload = nxt.ret[1] if nxt.ret[0] == "O" else ("V", "proj", ("proj", nxt.ret, (("v", 1), 0)))
         self.backward = nxt.fn.endswith("::next_back")
         # edges of the switch on next()'s result
         none_src = {x for (x, s2), fs in a.edge_facts.items() if any(("variant", nxt.ret, 0) in f for f in fs)}
@@ -185,6 +186,17 @@ def find_loops(a):
         lp.key = "loop@%s#%d" % (c.fn.split("::")[-1], n)
         n += 1
         out.append(lp)
+    return out
+
+
+def method_loops(a, keys):
+    """Loops driven by a crate-local next()/next_back() (given by body key) on some receiver: `while let Some(x) = self.next() { .. }`."""
+    out = []
+    for n, c in enumerate([c for c in a.calls if c.key in keys and a.reaches(c.bb, c.bb)]):
+        lp = Loop(a, c, None)
+        if lp.entries:
+            lp.key = "loop@%s#%d" % (c.fn.split("::")[-1], n)
+            out.append(lp)
     return out
 
 
